@@ -46,8 +46,13 @@ def _export(nl):
 }''' % (nl, mpz_obj('Z')), timeout=2400,
         selftest=[('__gmpz_export', r'limb = newlimb >> \(\(wbits\)-lbits\);', 'limb = newlimb >> ((wbits)-lbits+1);') if nl else ('__gmpz_export', r'limb = newlimb >> \(\(8\)-lbits\);', 'limb = newlimb >> ((8)-lbits+1);'),
                   ('__gmpz_export', r'\(order >= 0 \? \(count-1\)\*size : 0\)', '(order >= 0 ? (count)*size : 0)')] if nl in (0, 3) else [])
+# quick tier: the nail counts whose unit returns within ~5 min (n0, n4, n6, n7); n1, n2, n3, n5 need 8-15 min each and run in the thorough tier
+# (vp check: C17 quick exceeded 900 s with all sixteen byte units in it); the bounded enumeration unit below covers every nail count in the quick tier
 for _n in range(8):
-    UNITS.append(_export(_n))
+    _u = _export(_n)
+    if _n in (1, 2, 3, 5):
+        _u['tier'] = 'thorough'
+    UNITS.append(_u)
 
 # the rest of the parameter space (word sizes 1..16 bytes, every nail count, both orders, three endian settings, aligned and unaligned data): bounded native stand-in
 UNITS.append(dict(
@@ -108,4 +113,7 @@ def _import(nl):
         selftest=([('__gmpz_import', r'limb = byte >> \(\(wbits\) - lbits\);', 'limb = byte >> ((wbits) - lbits + 1);'), ('__gmpz_import', r'if \(lbits != 0\)', 'if (lbits > 1)')] if nl == 3 else
                   [('__gmpz_import', r'byte = \*dp;', 'byte = *dp & 0x7f;'), ('__gmpz_import', r'\(order >= 0 \? \(count-1\)\*size : 0\)', '(order >= 0 ? (count)*size : 0)')] if nl == 0 else []))
 for _n in range(8):
-    UNITS.append(_import(_n))
+    _u = _import(_n)
+    if _n not in (0, 4):
+        _u['tier'] = 'thorough'
+    UNITS.append(_u)
